@@ -28,6 +28,10 @@ func scenarioC07(r *Run) {
 	if t.Bool(1, 5, "c07.manylabels") {
 		so.MaxExtra = 40
 	}
+	if t.Bool(1, 4, "c07.tagged") {
+		so.TaggedProtected = true
+		r.Probe("tagged-values-in-protected-headers")
+	}
 	spec := genSpec(t, so)
 	k := genKnobs(t)
 	ent := NewEntropy(uint64(t.U32("entropy.seed")))
